@@ -24,6 +24,7 @@ TRUSTED = ["xml.etree.ElementTree parses the TIGER-XML text for both sides; code
 ASSUMPTIONS = ["labels and words contain no whitespace; bracket-format tokens contain no parentheses"]
 
 WORDS = ["%%", "%%x", "#100Days", "#2020", "#5", "#abc", "50#", "#5001", "der", "Hund", "bellt", "a", "x<y", "R&D", "\"q\"", "it's", "straße", "été", "-LRB-", "[br]", "{", "1990", "x=y", "日本"]
+U_WORDS = ["1\u00a01/2", "10\u00a0000", "a\u3000b", "x\u2009y", "n\u0085l", "\u00a0", "q\u2028r", "s\u001ct"]
 LABELS = ["S", "VP", "NP", "PP", "NP-SBJ", "NP-SBJ-1", "VP=2", "X#OA", "NP#SB-3", "CS"]
 POS = ["NN", "VVFIN", "ART", "$.", "PPER", "NN-HD", "V#HD"]
 WS = [" ", "\n", "\t", "  ", " \n ", "\n\n"]
@@ -132,6 +133,13 @@ def brackets_case(rng):
     first = opts.get('brackets_firstid', 1)
     for i in range(k):
         t = abstract_tree(rng, disc=disco, full=False)
+        if rng.random() < 0.25:
+            # the bracket formats separate tokens by the characters of string.whitespace only: other Unicode
+            # space characters (no-break space, thin space, ideographic space, NEL) are ordinary token characters
+            x = rng.choice(trees.terminals(t))
+            x.data['word'] = rng.choice(U_WORDS)
+            if rng.random() < 0.3:
+                x.data['label'] = rng.choice(["C\u00a0D", "N\u2009N"])
         emptyroot = rng.random() < 0.4
         if emptyroot:
             t.data['label'] = ""
